@@ -847,6 +847,19 @@ pub fn run(input: &str, output: &str, opts: Opts) -> std::io::Result<i32> {
             }
         }
         s.steer.store(false, Ordering::SeqCst);
+        // a collector cycle the behaviour left half-way, or one the scheduler has lost track of because the
+        // code stops where no behaviour of the model does: let it run to its end before anything else
+        // takes the collector's lock
+        {
+            let deadline = Instant::now() + Duration::from_secs(5);
+            while s.in_cycle.load(Ordering::SeqCst) && !sc.hung {
+                gate(Role::Collector).release();
+                std::thread::sleep(Duration::from_micros(200));
+                if Instant::now() > deadline {
+                    sc.hang("collector (cycle does not end)".into());
+                }
+            }
+        }
         if !sc.hung {
             // two more full cycles: whatever was still queued is consumed, receivers of exited
             // threads are noticed
